@@ -3,6 +3,7 @@ import Driver.DatasetProto
 import Midgard.Model.H5Dataset
 import Midgard.Model.H5Meta
 import Midgard.Model.H5Bits
+import Midgard.Model.H5Time
 
 /-!
 Driver for C10.
@@ -14,7 +15,7 @@ Driver for C10.
   `c10 restrict <units> <ops> | write <d> <level>`
       answers the rendering of the original dataset restricted to the fields of that level.
   `c10 info <units> <ops> | write <d> <level>`
-      answers `W:<T|F>|<tags>`: whether the dataset satisfies the model's `Writable` (the hypothesis of
+      answers `W:<T|F>|<tags>`: whether the dataset satisfies the model's `WritableS` (the hypothesis of
       `Props.C10.read_write`), and which branches of the model's write / read this dataset takes (the
       write branches are read off the file — one array group per `writeArr` call —, the read branches
       come from an instrumented twin of `readDS` whose result is compared with the model's here:
@@ -229,8 +230,9 @@ def dedup (l : List String) : List String := l.foldl (fun acc x => if acc.contai
 
 /-- `W:<writable>|<tags>` -/
 def info (h : Heap) (x : DS) (lvl : Nat) : String :=
-  let w := if writableB h x lvl then "T" else "F"
-  let omitted := if (restrictFields lvl x.fields).length < x.fields.length then ["w:field-omitted(top)"] else []
+  let w := if writableSB h x lvl then "T" else "F"
+  let shared := if writableSB h x lvl && !writableB h x lvl then ["w:fields-share-an-array"] else []
+  let omitted := shared ++ if (restrictFields lvl x.fields).length < x.fields.length then ["w:field-omitted(top)"] else []
   match writeDS h x lvl with
   | .error e => s!"W:{w}|w:ERR:{showErr e}"
   | .ok file =>
@@ -295,7 +297,90 @@ def showBits (h : Heap) (d : DS) : String :=
       | none => "-"
       | some ws => if ws.isEmpty then "[]" else ";".intercalate (ws.map (fun r => ",".intercalate (r.map (fun w => toString w.toNat))))))
 
+/-! ### the `time` attribute of positions (`Model/H5Time.lean`) -/
+
+/-- as `renderObj`, with the `time` attached to an object -/
+def renderObjX (h : Heap) (tm : TM) : Nat → Nat → List Nat → String × List Nat
+  | 0, _, seen => ("?", seen)
+  | fuel + 1, o, seen =>
+    match seen.idxOf? o with
+    | some i => (s!"#{i}", seen)
+    | none =>
+      let k := seen.length
+      let seen := seen ++ [o]
+      match h[o]? with
+      | none => ("!", seen)
+      | some ob =>
+        let (so, seen) := match ob.other with
+          | none => ("-", seen)
+          | some a => renderObjX h tm fuel a seen
+        let (sr, seen) := match ob.refPos with
+          | none => ("-", seen)
+          | some a => renderObjX h tm fuel a seen
+        let (st, seen) := match tmOf tm o with
+          | none => ("-", seen)
+          | some a => renderObjX h tm fuel a seen
+        (s!"#{k}\{{showKind ob.kind};{ob.ndim};{ob.cols};{showRows ob.rows}|o={so}|r={sr}|t={st}}", seen)
+
+partial def renderFieldsX (h : Heap) (tm : TM) : List Field → List Nat → String × List Nat
+  | [], seen => ("", seen)
+  | f :: fs, seen =>
+    let (a, seen) := match f with
+      | .leaf n k o no u l =>
+        let (so, seen) := renderObjX h tm (h.length + 1) o seen
+        (s!"L({n};{showKind k};{no};{showOptUnit u};{l};{so})", seen)
+      | .coll n no l sub =>
+        let (sf, seen) := renderFieldsX h tm sub seen
+        (s!"C({n};{no};{l};[{sf}])", seen)
+    let (b, seen) := renderFieldsX h tm fs seen
+    (if b.isEmpty then a else a ++ "," ++ b, seen)
+
+def leafObjAt (fs : List Field) (p : Path) : Option Nat :=
+  match findField fs p with
+  | some (.leaf _ _ o _ _ _) => some o
+  | _ => none
+
+/-- `<path of a position field>=<o<k> | f<path of a time field>>` -/
+def parseTimeAttr (w : W) (x : DS) (t : String) : Option (Nat × Nat) :=
+  match t.splitOn "=" with
+  | [ps, r] => do
+    let p ← parsePath? ps
+    let po ← leafObjAt x.fields p
+    let target ← if r.startsWith "o" then do
+        let k ← (r.drop 1).toString.toNat?
+        w.tab[k]?
+      else if r.startsWith "f" then do
+        let q ← parsePath? (r.drop 1).toString
+        leafObjAt x.fields q
+      else none
+    pure (po, target)
+  | _ => none
+
 def handle : List String → Option String
+  | "c10" :: "rtx" :: units :: rest => do
+    -- `<ops> | X <pos path>=<ref> … | write d lvl`: positions with a `time` attached
+    let us ← parseUnits? units
+    let (segs1, last) ← splitLast (splitOps rest)
+    let (ops, xseg) ← splitLast segs1
+    let w ← build { units := us } ops
+    match last, xseg with
+    | ["write", d, lvl], "X" :: toks =>
+      let d ← d.toNat?
+      let lvl ← lvl.toNat?
+      match w.getDs d with
+      | .error _ => none
+      | .ok x =>
+        let pairs ← toks.mapM (parseTimeAttr w x)
+        let tm : TM := pairs.foldl (fun tm (pt : Nat × Nat) => tm.set pt.1 (some pt.2)) (List.replicate w.heap.length none)
+        match writeDSX w.heap tm x lvl with
+        | .error e => pure ("ERR:w:" ++ showErr e)
+        | .ok file =>
+          match readBackX w.heap x file with
+          | .error e => pure ("ERR:r:" ++ showErr e)
+          | .ok (h', tm', x') =>
+            let (sf, _) := renderFieldsX h' tm' x'.fields []
+            pure s!"ok:D0({x'.numObs};[{sf}])"
+    | _, _ => none
   | "c10" :: "rtbits" :: units :: rest => do
     -- `<ops> | B <token per object of the walk> | write d lvl`
     let us ← parseUnits? units
